@@ -11,6 +11,8 @@ func runC12(c *Ctx) {
 	r.Explanation = "Decides the lock-discipline clauses behind 'Broker calls terminate under re-entrancy' on the whole call graph (CHA over the 7 packages): no lock class is re-acquired while it may be held (LO1), the lock-order graph is acyclic (LO2), no extension point named by the property (Node.Process, Node.Reopen, Closer.Close) is invoked while Broker.lock may be held in any mode (LO3), nothing is held by Send across processing (LO4), and every acquisition is released on every path. These are reachability facts over all call chains, including chains no test executes. Termination of user nodes and of third-party code is not decided."
 	r.NotDecided = []string{"termination of user-supplied nodes, predicates, signers, writers", "bounded time in the wall-clock sense"}
 	c.lockControls()
+	// the one loop that runs under Broker.lock:W over a data structure (the worklist of flatten) makes progress
+	c.ruleFlatten("C12.progress")
 
 	var passOK, noGateOK bool
 	var evaluated bool
